@@ -28,6 +28,7 @@ ASSUMPTIONS = [
     'build --lua-minify is driven in the default configuration only (it does not take the keep options; the statement speaks of luamin)',
 ]
 EXHAUSTIVE = {'quick': False, 'thorough': False}
+PYOPT_KINDS = (None,)
 KNOWN_KEYS = {'glue-minus-minus', 'glue-number-dotdot', 'glue-dotdot-dot', 'glue-bracket-longstring'}
 CONFIGS = ('default', 'keep_all', 'keep_file')
 STAT_FEATS = ['StatAssignment', 'StatAssignment:compound', 'StatFunctionCall', 'StatDo', 'StatWhile', 'StatRepeat', 'StatIf', 'StatForStep',
